@@ -81,6 +81,16 @@ OPTIONS_AFFECTING_CACHE: Final = (
         "untyped_calls_exclude",
         "enable_incomplete_feature",
         "install_types",
+        # Options below change which diagnostics are reported, or how the (cached,
+        # pre-rendered) error lines of a module look.
+        "allow_empty_bodies",
+        "deprecated_calls_exclude",
+        "many_errors_threshold",
+        "report_deprecated_as_note",
+        "show_absolute_path",
+        "show_error_code_links",
+        "show_error_context",
+        "warn_redundant_casts",
     }
 ) - {"debug_cache"}
 
